@@ -334,19 +334,20 @@ def threads(case):
     st = sched.explore(make_bodies, check, bound=bound if bound >= 0 else 10 ** 6, trace_files=())
   else:
     st = sched.explore(make_bodies, check, bound=bound, trace_files=trace_files,
-                       max_executions=case.get('max_executions'))
+                       max_executions=case.get('max_executions'), time_budget_s=case.get('time_budget_s', 240))
   info = {'evals': st['executions'], 'states': st['executions'], 'transitions': st['executions'] * max(1, st['max_points']),
           'traces': st['executions'], 'outcomes': sorted(outcomes), 'nontrivial': len(progs) > 1,
           'stats': {'schedules': st['executions']},
           'sample': {'progs': progs, 'mode': mode, 'bound': bound, 'schedules': st['executions'],
                      'max_scheduling_points': st['max_points']}}
   if st['capped']:
-    info['cap'] = 'max_executions=%s reached at preemption bound %d' % (case.get('max_executions'), bound)
+    info['cap'] = 'execution/time cap (max_executions=%s, %ss) reached at preemption bound %d after %d schedules' % (
+        case.get('max_executions'), case.get('time_budget_s', 240), bound, st['executions'])
   return info
 
 
 SUBS = {'fold': fold, 'threads': threads}
-TIMEOUTS = {'fold': 1500, 'threads': 1500}
+TIMEOUTS = {'fold': 1500, 'threads': 2400}
 
 
 def plan(ctx):
@@ -390,5 +391,5 @@ def plan(ctx):
   lc = []
   for progs in (line if th else line[:2]):
     for bound in ((0, 1, 2, 3) if th else (0, 1, 2)):
-      lc.append({'progs': progs, 'mode': 'line', 'bound': bound, 'max_executions': 60000 if th else 1500})
+      lc.append({'progs': progs, 'mode': 'line', 'bound': bound, 'max_executions': 60000 if th else 1500, 'time_budget_s': 900 if th else 120})
   ctx.pmap('threads', lc, chunk=1)
